@@ -32,6 +32,12 @@ CHECKS = {
             "expression must build; every entry of an unsupported-type table (incl. dataclasses with an unsupported field, nested five ways) must raise TypeError / "
             "UnsupportedAnnotation at build time; hooks raising 13 exception classes are placed in 9 contexts.",
             E1_NOTE),
+    'C05': ("bounded-exhaustive type x member enumeration plus the full dataclass layout/renaming/alias configuration cube on the real code; serial-form reference model + round-trip oracle",
+            "Every accepted cell of the grammar is serialised, checked against the documented serial form (scalar types exact), re-parsed (must be typed-equal) and serialised again "
+            "(equal up to set order). The dataclass cube (6 layout pairs x 26 class naming settings x 10 field naming settings x kw-only placement x exclude x default kinds, 37k classes) "
+            "is generated as real classes; a configuration is judged when the reference naming model (computed from the user's settings, never read back from pane) says the output form "
+            "is enabled on input. Two inherent defects are listed as known findings and matched by computed predicates.",
+            E1_NOTE),
     'C07': ("bounded-exhaustive enumeration of rejected cells; compositional oracle (the implementation on strictly smaller inputs) plus reference field tables",
             "For every rejected cell the root of the error tree is rebuilt from element-wise runs of the real converters on the sub-values alone: product children keyed by exactly "
             "the positions/keys rejected on their own and equal (typed, nan-safe) to the element's own tree, missing/extra/duplicate from the reference field table, one sum child per "
